@@ -12,7 +12,7 @@ Postconditions are transcribed from the property statement (DESIGN 5, C16):
   W   recombination weights w_i = (log(P/2 + 1/2) - log(1 + i)) / Sigma, i < floor(P/2):
       positive, non-increasing, sum to one
   WF  well-formed configuration: mu == floor(P/2) >= 1, mueff > 0, 0 < c1, 0 < cmu,
-      c1 + cmu < 1, 0 < cc <= 1, 0 < cs < 1, damps > 0 (what `create` establishes and
+      c1 + cmu < 1, 0 < cc <= 1, 0 < cs < 1, damps > 0, neg_cmu > 0 (what `create` establishes and
       what `update_search_distribution` relies on)
   INC incumbent: after a tell, best_fitness == min(old best_fitness, told cost), `<=`
       keeps the later candidate on ties, best_params is the candidate that was asked,
@@ -54,7 +54,7 @@ def cfg_wf(f, P, n):
     return band(C.compare("==", f["n_samples_per_update"], P), C.compare("==", f["n_params"], n),
                 C.compare("==", f["mu"], P // 2), C.compare(">=", f["mu"], 1),
                 f["mueff"] > 0, f["c1"] > 0, f["cmu"] > 0, f["c1"] + f["cmu"] < 1,
-                f["cc"] > 0, f["cc"] <= 1, f["cs"] > 0, f["cs"] < 1, f["damps"] > 0)
+                f["cc"] > 0, f["cc"] <= 1, f["cs"] > 0, f["cs"] < 1, f["damps"] > 0, f["neg_cmu"] > 0)
 
 
 def weights_wf(E, name, w, mu, oblige=True):
@@ -123,6 +123,7 @@ def mk_create(default_pop):
         E.oblige("config.cc_in_unit_interval", band(f["cc"] > 0, f["cc"] <= 1))
         E.oblige("config.cs_in_unit_interval", band(f["cs"] > 0, f["cs"] < 1))
         E.oblige("config.damps_positive", f["damps"] > 0)
+        E.oblige("config.neg_cmu_positive", f["neg_cmu"] > 0)
         E.oblige("config.well_formed", cfg_wf(f, P, n))
         E.oblige("config.flags_kept", band(iff(f["active"], active), iff(f["maximize"], maximize)))
         E.oblige("canary.weights_constant", Sym(zr(w.at(0)) == zr(w.at(1))), assume_after=False)
@@ -408,7 +409,6 @@ def mk_update(active, probe_active_positivity=False):
         st = E.st
         E.oblige("canary.mean_unchanged", Sym(zr(f2["mean"].at(0)) == zr(sf["mean"].at(0))), assume_after=False, using=[])
         E.oblige("canary.var_unchanged", C.compare("==", f2["var"], sf["var"]), assume_after=False, using=[])
-        E.oblige("canary.cov_unchanged", Sym(zr(T.as_tensor(f2["cov"]).at(0, 0)) == zr(sf["cov"].at(0, 0))), assume_after=False, using=[])
         # ---- M: mean' is the weighted average of the mu best candidates
         sorts = st.ghost.get("argsorts") or []
         if len(sorts) != 1:
@@ -449,8 +449,11 @@ def mk_update(active, probe_active_positivity=False):
             X.lemma_sum_congr_at(E, f"cov.lemma_rank_mu_symmetric.{q}", nd, (i, j), (j, i), using=["cov.lemma_diag_product"])
         E.oblige("cov.symmetric", Sym(z3.Implies(z3.And(in_range(i, n), in_range(j, n)), zr(cov2.at(Sym(i), Sym(j))) == zr(cov2.at(Sym(j), Sym(i))))), using=["cov.symmetric"])
         if probe_active_positivity:
-            # NOT a claim (see NOT_COVERED): used offline to obtain the solver's counter-model
-            E.oblige("probe.active_positive_variances", Sym(z3.Implies(in_range(i, n), zr(cov2.at(Sym(i), Sym(i))) > 0)), using=["cov.positive_diagonal"], assume_after=False)
+            # NOT a claim (see NOT_COVERED): run offline on concrete sizes to obtain the solver's counter-model
+            if isinstance(n, int):
+                for q in range(n):
+                    E.assume(Sym(zr(sf["cov"].at(q, q)) > 0))
+                E.oblige("probe.active_positive_variances", Sym(zr(cov2.at(0, 0)) > 0), using=[], assume_after=False)
         if not active:
             for q, nd in enumerate(quad):
                 X.lemma_sum_pos(E, f"cov.lemma_rank_mu_diagonal_nonneg.{q}", nd, (i, i), strict=False, using=["cov.lemma_diag_product", "W.positive"])
@@ -535,6 +538,14 @@ TASKS = [
     Task("update_search_distribution[active]", mk_update(True), setup=stub_inv_sqrt),
 ] + [Task(f"set_params/flat_params[leaves={spec}]", mk_roundtrip(spec),
           bounded="number of parameter leaves <= 3 (leaf ranks 1 and 2, all leaf dimensions symbolic)") for spec in ("1", "2", "21", "12", "212")]
+
+# counter-model returned by z3 for `probe.active_positive_variances` (mk_update(True, probe_active_positivity=True)
+# explored at the concrete sizes population=2, n_params=2, i.e. mu=1; every WF clause holds in it):
+ACTIVE_COUNTER_MODEL = dict(
+    population=2, n_params=2, mu=1, weights=[2], mueff="16/3", cc="1/2", cs="15/16", c1="3/8", cmu="1/2", neg_cmu=2, alpha_old="1/2",
+    var=1, cov=[["9/16", "9/16"], ["9/16", "3/10"]], mean=[0, "17/4"], pc=[0, 0], samples=[[2, 2], [2, 2]], fitness=[0, 0],
+    result="cov'[0,0] = (1 - c1a - cmu + neg_cmu/2)*9/16 + (cmu + neg_cmu/2)*w*(2-0)^2 - neg_cmu*w*(2-0)^2 <= 0",
+)
 
 # CEM TASKS ---------------------------------------------------------------
 # The cross-entropy-method half of C16 (cem_sample / cem_update / optimize_cem:
